@@ -23,6 +23,9 @@ def F_SHOW := 1
 def F_UPDATE := 2
 def F_FROM_AOF := 4
 def F_CONCURRENT := 8
+/-- LOCK_FLAG_CONTAINS_DATA: stage 1 has no value cell; the only thing it knows about the flag is that an update carrying it is never
+treated as 'same terms' (the real code takes that shortcut only for a journalled value, which stage 1 never has). -/
+def F_CONTAINS_DATA := 0x20
 def UF_FIRST := 1
 def UF_CANCEL := 2
 def TF_PRIORITY := 0x10
@@ -306,12 +309,12 @@ def classifyLock (db : DB) (c : Cmd) : LockBranch :=
         if !has c.flag F_UPDATE then .show cur
         else
           -- show ∧ update: the command takes the oldest holder's LockId and continues as an update of it
-          if checkLockedEqual db.now cur c then .updateEqual cur else .update cur
+          if !has c.flag F_CONTAINS_DATA && checkLockedEqual db.now cur c then .updateEqual cur else .update cur
       | none =>
         match findHolder k c.lockId with
         | some h =>
           if has c.flag F_UPDATE then
-            if checkLockedEqual db.now h c then .updateEqual h else .update h
+            if !has c.flag F_CONTAINS_DATA && checkLockedEqual db.now h c then .updateEqual h else .update h
           else if h.depth < 0xff && h.depth ≤ c.rcount && !has c.tflag TF_PRIORITY then
             (if c.expried == 0 then .relockNoHold h else .relock h)
           else .relockRefused h
